@@ -78,6 +78,67 @@ def check_image(data, sess_model=None, counters=None, api_iso=None):
     return vio, dec
 
 
+PVD_TEXT = {'sys_ident': (8, 32), 'vol_ident': (40, 32), 'vol_set_ident': (190, 128), 'pub_ident_str': (318, 128),
+            'preparer_ident_str': (446, 128), 'app_ident_str': (574, 128), 'copyright_file': (702, 37),
+            'abstract_file': (739, 37), 'bibli_file': (776, 37)}
+
+
+def check_vd_fields(dec, cfg, counters):
+    """The volume-descriptor fields given to new(), as an independent reader finds them in every
+    descriptor of the image (Joliet: the same strings in UCS-2BE)."""
+    import calendar
+    vio = []
+    ex = cfg.extra
+    if not ex:
+        return vio
+    counters['vd_field_images'] = counters.get('vd_field_images', 0) + 1
+    for vol in dec.volumes:
+        raw = vol.vd.raw
+        ucs2 = vol.kind == 'joliet'
+        for name, (off, width) in PVD_TEXT.items():
+            if name not in ex:
+                continue
+            got = bytes(raw[off:off + width])
+            if ucs2:
+                want = ex[name].encode('utf-16-be')
+                pad = b'\x00 '
+                want = want + pad * ((width - len(want)) // 2)
+                want = want[:width].ljust(width, b'\x00') if width % 2 else want
+                if width % 2:
+                    got, want = got[:width - 1], want[:width - 1]
+            else:
+                want = ex[name].encode('ascii').ljust(width, b' ')
+            counters['vd_fields_compared'] = counters.get('vd_fields_compared', 0) + 1
+            if got != want:
+                vio.append({'key': 'vd:field:%s%s' % ('joliet:' if ucs2 else '', name), 'detail': '%s descriptor at sector %d: %s given %r, recorded %r' % (vol.kind, vol.vd.sector, name, ex[name][:40], got[:48])})
+        if 'set_size' in ex and vol.fields.get('set_size') != ex['set_size']:
+            vio.append({'key': 'vd:field:set_size', 'detail': '%s: given %d recorded %r' % (vol.kind, ex['set_size'], vol.fields.get('set_size'))})
+        if 'seqnum' in ex:
+            if vol.fields.get('seqnum') != ex['seqnum']:
+                vio.append({'key': 'vd:field:seqnum', 'detail': '%s: given %d recorded %r' % (vol.kind, ex['seqnum'], vol.fields.get('seqnum'))})
+            for dpath, d in vol.dirs.items():
+                bad = [r for r in d.records if r.volseq[0] != ex['seqnum']]
+                if bad:
+                    vio.append({'key': 'dr:volseq', 'detail': '%s %s: record %r carries volume sequence number %d, the volume is number %d' % (vol.kind, dpath, bad[0].ident[:20], bad[0].volseq[0], ex['seqnum'])})
+                    break
+        if 'app_use' in ex:
+            got = bytes(raw[883:883 + 512])
+            want = ex['app_use'].encode('ascii')
+            if got[:len(want)] != want:
+                vio.append({'key': 'vd:field:app_use', 'detail': '%s: given %d bytes %r.., recorded %r..' % (vol.kind, len(want), want[:20], got[:20])})
+        if 'vol_expire_date' in ex:
+            st = bytes(raw[847:864])
+            try:
+                y, mo, dd, hh, mi, ss = int(st[0:4]), int(st[4:6]), int(st[6:8]), int(st[8:10]), int(st[10:12]), int(st[12:14])
+                off = st[16] - 256 if st[16] > 127 else st[16]
+                got = calendar.timegm((y, mo, dd, hh, mi, ss)) - off * 900 if y else None
+            except ValueError:
+                got = 'undecodable %r' % st
+            if got != int(ex['vol_expire_date']) and not (got is None and ex['vol_expire_date'] == 0):
+                vio.append({'key': 'vd:field:vol_expire_date', 'detail': '%s: given %d recorded %r (%r)' % (vol.kind, ex['vol_expire_date'], got, st)})
+    return vio
+
+
 def check(cfg, ops, seed, counters=None):
     from harness.props import c01
     sess = driver.replay(cfg, ops, seed)
@@ -87,6 +148,8 @@ def check(cfg, ops, seed, counters=None):
     data = img.getvalue()
     s2, oc = sess.reopen(data)
     vio, dec = check_image(data, sess.model, counters, s2.iso if oc.ok else None)
+    if dec is not None and dec.pvd is not None:
+        vio += check_vd_fields(dec, cfg, counters if counters is not None else {})
     if not oc.ok:
         vio.append({'key': 'reopen-raises:%s@%s' % (oc.exc_class, oc.exc_where), 'detail': oc.exc_msg})
     s2.close()
@@ -98,6 +161,10 @@ def run_case(i, seed, tier):
     counters = {}
     g = Gen(seed * 1000003 + i)
     cfg = g.cfg(index=i + seed * 17)
+    if i % 3 == 1:
+        # volume-descriptor fields given to new(): identifiers at their field widths, set size and
+        # sequence number, expiry date, application use
+        cfg = cfg.with_extra(g.vd_extras(bool(cfg.joliet), cfg.xa))
     profile = ['grow', 'std', 'churn', 'grow', 'names', 'links'][i % 6]
     nops = g.rng.choice([5, 12, 25, 40]) if tier == 'quick' else g.rng.choice([10, 30, 60, 120])
     if i % 25 == 9:
